@@ -341,7 +341,15 @@ def o_c17(cimp, ctx):
             continue
         i = t["id"]
         nb = neighbours_of(t, tasks)
-        if i in starts and all(n in before for n in nb) and all(n in cimp["files"] for n in nb) and not cfg["force"]:
+        # a node exists at the task's turn if it existed before the build, or a task that declares it as a
+        # product finished before this task started
+        log = cimp["log"]
+        pos = {e: k for k, e in enumerate(log)}
+        def at_turn(n):
+            if n in before:
+                return True
+            return any(n in u["prods"] and pos.get(2 * u["id"] + 1, 10 ** 9) < pos.get(2 * i, -1) for u in tasks) and n in cimp["files"]
+        if i in starts and all(at_turn(n) for n in nb) and all(n in cimp["files"] for n in nb) and not cfg["force"]:
             probs.append((f"persisted task {i} was executed although all its dependencies and products exist", ()))
         if rep.get(i) == O["PERSISTENCE"] and i in starts:
             probs.append((f"task {i} reported PERSISTENCE but ran", ()))
